@@ -272,6 +272,7 @@ static void divCheck(const z3::expr &y) {
 }
 double __sym_bin_d(int op, double a, double b) {
   bool conc = !isboxd(a) && !isboxd(b);
+  if (conc && op == 3 && b == 0 && a == a) { emit("{\"k\":\"E\",\"ev\":\"div-by-zero\",\"block\":" + std::to_string(curBlock) + ",\"path\":\"" + taken + "\"}"); event("div0"); }
   if (conc) { double r; if (concreteMode || exactBin(op, a, b, &r)) { switch (op) { case 0: return a + b; case 1: return a - b; case 2: return a * b; default: return a / b; } }
     return box(binTerm(op, termd(a), termd(b)).simplify()); }
   touch(); z3::expr x = termd(a), y = termd(b); if (op == 3) divCheck(y);
@@ -279,6 +280,7 @@ double __sym_bin_d(int op, double a, double b) {
 }
 float __sym_bin_f(int op, float a, float b) {
   bool conc = !isboxf(a) && !isboxf(b);
+  if (conc && op == 3 && b == 0 && a == a) { emit("{\"k\":\"E\",\"ev\":\"div-by-zero\",\"block\":" + std::to_string(curBlock) + ",\"path\":\"" + taken + "\"}"); event("div0"); }
   if (conc) { double r; float rf; switch (op) { case 0: rf = a + b; break; case 1: rf = a - b; break; case 2: rf = a * b; break; default: rf = a / b; }
     if (concreteMode || !std::isfinite(rf) || (exactBin(op, (double)a, (double)b, &r) && (double)rf == r)) return rf;
     return boxf(binTerm(op, termf(a), termf(b)).simplify()); }
